@@ -112,6 +112,15 @@ def run(facts, rep, tier):
                                 continue
                             if returned:
                                 rep.inconclusive('PA.1', f'{f.name}: {o.name}() at line {o.node.line}', o.site, 'the open handle is returned to the caller: who closes it is not followed'); continue
+                        if open_ok and not closes:
+                            # the handle goes straight into a local owning smart pointer: closed once, when that goes out of scope, if its deleter is the matching close
+                            own = _owner_of(facts, f, o.node, want)
+                            if own is not None:
+                                okd, whyd, inst = own
+                                if okd is True: rep.ok('PA.1', f'{f.name}: the result of {o.name}() at line {o.node.line} is owned by {inst}, whose deleter calls {want}() once at scope exit', o.site)
+                                elif okd is False: rep.violation('PA.1', f'{f.name}: {o.name}() at line {o.node.line} is released by its owner with the matching close', o.site, whyd, key=f'PA.1|owner|{f.name}', fn=f.name)
+                                else: rep.inconclusive('PA.1', f'{f.name}: {o.name}() at line {o.node.line}', o.site, whyd)
+                                continue
                         if open_ok:
                             ok = len(closes) == 1
                             rep.check(ok, 'PA.1', f'{f.name}: {o.name}() at line {o.node.line} succeeded -> {want}() exactly once on this path (ends: {ended})', o.site,
@@ -326,6 +335,11 @@ def run(facts, rep, tier):
             if a is None: return None
             if a.k == 'int': return a.v
             if a.k == 'sizeof': return a.d.get('const', a.d.get('v'))
+            if a.k == 'call' and a.callee_base() in ('size', 'max_size') and a.n('object') is not None:
+                # std::array<char, N>::size()
+                m0 = re.match(r'(?:const )?std::array<[^,]+,\s*(\d+)>', (a.n('object').type or a.n('object').d.get('decltype') or '').strip())
+                if m0: return int(m0.group(1))
+            if 'const' in a.d and a.k == 'ref' and a.dk not in ('local', 'param'): return a.d['const']
             return None
         seen_fns = set(); work = [gw]; n6 = 0
         while work:
@@ -343,9 +357,13 @@ def run(facts, rep, tier):
                     while b0 is not None and b0.k in ('cast', 'paren') and b0.n('sub') is not None: b0 = b0.n('sub')
                     m_ = re.search(r'\[(\d+)\]$', (b0.d.get('decltype') or b0.d.get('type') or '') if b0 is not None else '')
                     cap = int(m_.group(1)) if m_ else None
+                    if cap is None and b0 is not None and b0.k == 'call' and b0.callee_base() == 'data' and b0.n('object') is not None:
+                        m1 = re.match(r'(?:const )?std::array<[^,]+,\s*(\d+)>', (b0.n('object').type or b0.n('object').d.get('decltype') or '').strip())
+                        if m1: cap = int(m1.group(1))
+                    growable = b0 is not None and any(re.match(r'(?:const )?std::(__cxx11::)?(basic_string|vector)<', (x.type or x.d.get('decltype') or '').strip()) for x in b0.walk())
                     inst = f'{g.name}: getcwd(buffer, {c if c is not None else ln.text()[:30]})'
                     if c is None:
-                        v6, why6 = _grows_on_erange(facts, gw)
+                        v6, why6 = _grows_on_erange(facts, gw) if growable else (None, 'neither a constant nor the size of a container that can be enlarged')
                         if v6 is True: rep.ok('PA.6', f'{g.name}: getcwd into a buffer that is enlarged and retried while getcwd reports ERANGE', n.shortloc())
                         elif v6 is False: rep.violation('PA.6', inst, n.shortloc(), why6, key='PA.6|retry', fn=g.name)
                         else: rep.inconclusive('PA.6', inst, n.shortloc(), 'the length handed to getcwd is not a compile-time constant' + (f' ({why6})' if why6 else ''))
@@ -358,6 +376,31 @@ def run(facts, rep, tier):
                     h = facts.fn(n.callee)
                     if h is not None: work.append(h)
         if n6 == 0: rep.inconclusive('PA.6', 'getWorkingDirectory()', gw.shortloc(), 'no getcwd / get_current_dir_name / std::filesystem::current_path call found: how the working directory is read is not recognised')
+
+
+def _owner_of(facts, f, open_call, want):
+    """the std::unique_ptr / std::shared_ptr that is constructed directly from the result of `open_call`, judged by its deleter:
+    (True / False / None, why, description) or None if there is no such owner"""
+    for c in f.nodes():
+        if c.k != 'construct' or not (c.d.get('class') or '').startswith(('std::unique_ptr', 'std::shared_ptr')): continue
+        args = [a for a in c.ns('args') if a is not None]
+        if not args or not any(x.id == open_call.id for x in args[0].walk()): continue
+        cls = c.d.get('classfull') or c.d.get('class') or ''
+        inst = f'a local {cls[:70]}'
+        if any(x.k == 'ref' and x.dk == 'func' and (x.qname or x.name or '').split('::')[-1] == want for a in args[1:] for x in a.walk()): return True, '', inst
+        others = [x for a in args[1:] for x in a.walk() if x.k == 'ref' and x.dk == 'func']
+        if others: return False, f'the deleter handed to the owner is {others[0].name}(), not {want}()', inst
+        m_ = re.match(r'std::(?:unique|shared)_ptr<[^,]+,\s*([\w:<> ]+?)\s*>$', cls)
+        if m_:
+            dels = [g for g in facts.fns if (g.d.get('classfull') or g.d.get('class')) == m_.group(1).strip() and g.qname.endswith('::operator()')]
+            if dels:
+                okd = any(x.k == 'call' and x.callee_base() == want for x in dels[0].nodes())
+                return (True, '', inst) if okd else (False, f'the deleter {m_.group(1)} does not call {want}()', inst)
+            return None, f'the deleter {m_.group(1)} of the owner was not followed', inst
+        if len(args) == 1 and cls.startswith('std::unique_ptr') and ',' not in cls:
+            return False, f'the owner has the default deleter: the handle is released with `delete`, never with {want}()', inst
+        return None, 'the deleter of the owner was not recognised', inst
+    return None
 
 
 ERANGE = 34            # <asm-generic/errno-base.h>: what getcwd sets when the buffer is too small
